@@ -711,6 +711,7 @@ def _run(ctx, api, res, deep):
     tt = lambda e: TTYPE[e[1]]
     for gi, (gname, g) in enumerate(grids.items()):
         entries = space_list(api, gname, g, thorough)
+        ctx.log(f"{gname}: {len(entries)} spaces built: {time.time() - t0:.1f}s")
         scal = [e for e in entries if e[1] in ("dp0", "dp1", "p1")]
         vec = [e for e in entries if e[1] in ("rwg0", "snc0")]
         # (1) identity   pairs (domain a, dual b)
@@ -727,7 +728,10 @@ def _run(ctx, api, res, deep):
                 sel += rng.sample(cands, min(2, len(cands)))
             pairs = sel
         for a, b in pairs:
+            t1 = time.time()
             R.check_identity(a, b)
+            if time.time() - t1 > 2:
+                ctx.log(f"   identity {a[0]} x {b[0]}: {time.time() - t1:.1f}s")
         ctx.log(f"{gname}: identity on {len(pairs)} pairs: {time.time() - t0:.1f}s")
         # (2) Laplace-Beltrami (P1 and DP1 share the evaluator: one compilation)
         p1s = [e for e in scal if e[1] in ("p1", "dp1")]
